@@ -19,8 +19,12 @@ WHICH = 0
 
 
 def cells(tier):
-    return [{"name": "%s-%s" % (f, fam), "fn": f, "family": fam, "n": N[tier]}
-            for f in prim.FUNCTIONS for fam in FAMILIES]
+    out = [{"name": "%s-%s" % (f, fam), "fn": f, "family": fam, "n": N[tier]}
+           for f in prim.FUNCTIONS for fam in FAMILIES]
+    if tier == "thorough":
+        from ..common import fuzz_cells
+        out += fuzz_cells("line-box-c10", 4, 200000)
+    return out
 
 
 def strategy(cell):
